@@ -793,6 +793,19 @@ func (cnf *Configurator) addOrUpdateTransportServer(transportServerEx *Transport
 		}
 		return changed || ptChanged, warnings, nil
 	}
+
+	// the TransportServer was a TLS Passthrough TransportServer before and no longer is:
+	// its host must leave the TLS Passthrough Hosts config
+	key := generateNamespaceNameKey(&transportServerEx.TransportServer.ObjectMeta)
+	if _, exists := cnf.tlsPassthroughPairs[key]; exists {
+		delete(cnf.tlsPassthroughPairs, key)
+		ptChanged, err := cnf.updateTLSPassthroughHostsConfig()
+		if err != nil {
+			return false, nil, err
+		}
+		return changed || ptChanged, warnings, nil
+	}
+
 	return changed, warnings, nil
 }
 
